@@ -35,7 +35,7 @@ func curGoroutine() int64 {
 // c13server: inbound put datagrams racing local Server.Put calls on one target, over a gated store.
 func c13server(c *evid.Ctx) {
 	r := c.R.Fork("server")
-	scen := c.Scale(120, 4000)
+	scen := c.Scale(120, 1500)
 	for s := 0; s < scen && c.NumViolations() < 20; s++ {
 		pub, priv := edKey(r)
 		key := c13key{pub, priv, nil}
@@ -195,7 +195,7 @@ func (s *ageStore) Del(t bep44.Target) error {
 
 func c13expiry(c *evid.Ctx) {
 	r := c.R.Fork("expiry")
-	n := c.Scale(400, 20000)
+	n := c.Scale(400, 8000)
 	st := &ageStore{m: map[bep44.Target]*bep44.Item{}}
 	node, err := srv.New(dht.ServerConfig{NoSecurity: true, Store: st, Exp: 2 * time.Hour})
 	if err != nil {
